@@ -158,6 +158,54 @@ pub fn generate(seed: u64, tier: Tier) -> Case {
     } else {
         diverse_builds(&mut rng, 0, k, Some(&project), true)
     };
+    // Two sources for one module path, through the API (`add_module` twice under one path, in
+    // both orders): whatever happens to the second, it happens in either order.
+    let mut builds = builds;
+    let mut world = world;
+    if family == "valid" && rng.chance(1, 8) {
+        let n = world.module_files().len();
+        for (k, ty) in [("first", "OnlyInFirst"), ("second", "OnlyInSecond")] {
+            world.input.push(crate::run::Node::File {
+                path: format!("twice_{k}.pyxis"),
+                content: crate::run::Blob::text(format!(
+                    "#[align(4)]\npub type {ty} {{ pub a: u32 }}\n#[address(0x{:x})]\npub extern g_{k}: u32;\n",
+                    0x7000 + 8 * k.len()
+                )),
+            });
+        }
+        let files: Vec<String> = world.module_files().iter().map(|(p, _)| p.clone()).collect();
+        let a = files.iter().position(|p| p == "twice_first.pyxis");
+        let b = files.iter().position(|p| p == "twice_second.pyxis");
+        if let (Some(a), Some(b)) = (a, b) {
+            let shared = (*rng.pick(&["shared", "twice_first", "d00::shared", "a::b::c"])).to_string();
+            builds.clear();
+            for order in [[a, b], [b, a]] {
+                let mut ops: Vec<crate::run::ApiOp> = vec![];
+                let mut rest: Vec<usize> = (0..files.len()).filter(|i| *i != a && *i != b).collect();
+                rng.shuffle(&mut rest);
+                let split = rng.below(rest.len() + 1);
+                ops.extend(rest[..split].iter().map(|i| crate::run::ApiOp::AddStr(*i)));
+                ops.push(crate::run::ApiOp::AddStrAt(order[0], shared.clone()));
+                let mid = rng.below(rest.len() - split + 1) + split;
+                ops.extend(rest[split..mid].iter().map(|i| crate::run::ApiOp::AddStr(*i)));
+                ops.push(crate::run::ApiOp::AddStrAt(order[1], shared.clone()));
+                ops.extend(rest[mid..].iter().map(|i| crate::run::ApiOp::AddStr(*i)));
+                builds.push(crate::run::BuildSpec {
+                    world: 0,
+                    entry: crate::run::Entry::DriverOps { ops },
+                    sched: crate::sched::SchedSpec {
+                        unresolved: crate::sched::OrderSpec::Hashed(rng.next_u64()),
+                        module_write: crate::sched::OrderSpec::Canonical,
+                        definitions: crate::sched::OrderSpec::Canonical,
+                    },
+                    repeat: 1,
+                });
+            }
+            params.intended_valid = false;
+            params.notes.push("same_module_path_twice".into());
+            let _ = n;
+        }
+    }
     let mut worlds = vec![world];
     if rng.chance(1, 8) {
         if let Some((from, to)) = crate::mutate::coincide(&mut rng, &mut worlds, true) {
@@ -168,7 +216,6 @@ pub fn generate(seed: u64, tier: Tier) -> Case {
     // Something else is built in between, in the same process: another project, more often
     // than not one that fails (in resolution, in layout, when its file is written). Whatever
     // that leaves behind in the process, the builds of this input do not notice.
-    let mut builds = builds;
     if family != "exhaustive_small" && rng.chance(1, 6) {
         let cfg2 = GenCfg::swarm(&mut rng, 6, 2);
         let mut other = gen_valid(&mut rng, &cfg2, ptr);
@@ -1087,14 +1134,53 @@ fn permutations(items: &mut Vec<String>, k: usize, out: &mut Vec<Vec<String>>) {
     }
 }
 
+/// What a build's entry point hands to pyxis, as a set: (module path, text) per module and
+/// whatever else an API history adds. Builds are "the same input set" when these agree; an
+/// explicit history that puts a text somewhere else, or leaves one out, is another input.
+fn input_set(world: &World, entry: &crate::run::Entry) -> Vec<(String, u64)> {
+    use crate::run::{ApiOp, Entry};
+    let files = world.module_files();
+    let own = |i: usize| -> Option<(String, u64)> {
+        let (rel, blob) = files.get(i)?;
+        Some((
+            rel.trim_end_matches(".pyxis").replace('/', "::"),
+            crate::rng::hash_bytes(9, &blob.0),
+        ))
+    };
+    let mut set: Vec<(String, u64)> = match entry {
+        Entry::DriverOps { ops } => ops
+            .iter()
+            .filter_map(|op| match op {
+                ApiOp::AddFile(i) | ApiOp::AddStr(i) => own(*i),
+                ApiOp::AddStrAt(i, at) => own(*i).map(|(_, h)| (at.clone(), h)),
+                ApiOp::AddFileOutside(i) => own(*i).map(|(p, h)| (format!("<outside>{p}"), h)),
+                ApiOp::AddItem { path, size, alignment } => Some((
+                    format!("<item>{path}"),
+                    crate::rng::mix(*size as u64, *alignment as u64),
+                )),
+            })
+            .collect(),
+        _ => (0..files.len()).filter_map(own).collect(),
+    };
+    set.sort();
+    set
+}
+
 pub fn evaluate(case: &Case, results: &[Vec<RunResult>]) -> Verdict {
-    // Group by world (C09 cases have one world, but the oracle is written generally).
-    for w in 0..case.worlds.len() {
+    // Group by world and by what the entry point hands over.
+    let mut groups: Vec<(usize, Vec<(String, u64)>)> = vec![];
+    for b in &case.builds {
+        let key = (b.world, input_set(&case.worlds[b.world], &b.entry));
+        if !groups.contains(&key) {
+            groups.push(key);
+        }
+    }
+    for (w, set) in groups {
         let runs: Vec<(usize, usize, &RunResult)> = case
             .builds
             .iter()
             .enumerate()
-            .filter(|(_, b)| b.world == w)
+            .filter(|(_, b)| b.world == w && input_set(&case.worlds[b.world], &b.entry) == set)
             .flat_map(|(bi, _)| results[bi].iter().enumerate().map(move |(ri, r)| (bi, ri, r)))
             .collect();
         let Some((b0, r0, first)) = runs.first().copied() else {
